@@ -174,10 +174,16 @@ func TestVerifC03(t *testing.T) {
 			cell = c.Index % 144
 		}
 		cfg := gen.RandomConfig(c.Rng, cell)
+		// one program in four mixes in calls which the Writer must refuse: the
+		// cross-reference data must be that of the accepted calls alone
+		cfg.WithRejected = c.Index%4 == 3
 		d, err := gen.BuildDoc(c.Rng, cfg)
 		if err != nil {
 			c.Violationf("writer-refused-valid-call", "%v", err)
 			return
+		}
+		if cfg.WithRejected {
+			c.R.Count("files_with_refused_calls", 1)
 		}
 		xf := c03Validate(c, d)
 		c.R.Seen("config-cells", cfg.Cell())
